@@ -27,4 +27,9 @@ LEGS = [
 
 
 def run(ctx):
-    progworld.run_program(ctx, ["c01"], force={"probe": False}, probe=False)
+    # in a quarter of the runs some managers provide their exit method as a staticmethod
+    # (finding F23 / known finding K2)
+    unbound = ctx.tape.choose(4) == 3
+    if unbound:
+        ctx.stat("runs_with_unbound_exit_managers")
+    progworld.run_program(ctx, ["c01"], force={"probe": False, "unbound_exit": unbound}, probe=False)
